@@ -348,7 +348,8 @@ Proof.
         rewrite S6 in ST.
         destruct (if first then Some [] else incoming (sr n)) as [ps|] eqn:INC;
           [|injection ST as <- <-; discriminate DL].
-        destruct last; injection ST as <- <-; [|discriminate DL].
+        destruct last; [destruct (snap_ahead _ _)|]; injection ST as <- <-;
+          [|discriminate DL|discriminate DL].
         cbn in SS. injection SS as SS. eapply assemble_snap_wf; [|exact SS].
         apply Forall_app. split.
         * destruct first; [injection INC as <-; constructor|]. now apply IW.
